@@ -1,7 +1,7 @@
-\* non-vacuity self-test: the named deviation "deny-ignored" of the Impl model MUST be refuted (ImplAgrees)
+\* non-vacuity self-test: the named deviation "deny-ignored" of the Impl model MUST be refuted (invariant ImplAgrees)
 SPECIFICATION Spec
 CONSTANTS
-  Family = "mixed"
+  Family = "small"
   Deviation = "deny-ignored"
   MaxLinks = 2
 INVARIANTS ImplAgrees
